@@ -705,3 +705,23 @@ COMPRESS_METHOD = Contract(
 COMPRESS_METHOD.no_callee = True
 COMPRESS_METHOD.label = "parameters shared with the rewritten spec"
 CONTRACTS += [COMPRESS_METHOD]
+
+
+CIRCUIT_INIT = Contract(
+    target=f"{CIRC}:Circuit.__init__",
+    types={"self": "obj:Circuit{__n_modes:none;__internal_modes:none;__in_heralds:none;__out_heralds:none;__external_in_heralds:none;__external_out_heralds:none;__circuit_spec:none}",
+           "n_modes": ["int", "real"]},
+    requires=[],
+    modifies=["self.__n_modes", "self.__internal_modes", "self.__in_heralds", "self.__out_heralds", "self.__external_in_heralds", "self.__external_out_heralds", "self.__circuit_spec"],
+    ensures={
+        # an empty circuit on the given number of modes: no component, no herald, no ancilla; a whole-valued real mode count is stored as an int
+        "empty_circuit": "self.__n_modes == n_modes and isinstance(self.__n_modes, int) and len(self.__circuit_spec) == 0 and len(self.__in_heralds) == 0 and len(self.__out_heralds) == 0 and "
+                         "len(self.__external_in_heralds) == 0 and len(self.__external_out_heralds) == 0 and len(self.__internal_modes) == 0",
+        "own_containers": "fresh_ref(self.__circuit_spec) and fresh_ref(self.__in_heralds) and fresh_ref(self.__out_heralds) and fresh_ref(self.__external_in_heralds) and "
+                          "fresh_ref(self.__external_out_heralds) and fresh_ref(self.__internal_modes)",
+    },
+    raises={"TypeError": "not isinstance(n_modes, int) and int(n_modes) != n_modes"},
+    props=["C01", "C08"],
+)
+CIRCUIT_INIT.no_callee = True
+CONTRACTS += [CIRCUIT_INIT]
